@@ -122,6 +122,125 @@ def normal_paths(paths):
     return [p for p in paths if p.exit in ('return', 'fall')]
 
 
+FSM_ENUMS = ('connection.ConnectionState', 'connection.ConnectionInputs',
+             'connection.AllowedStreamIDs', 'stream.StreamState',
+             'stream.StreamInputs', 'stream.StreamClosedBy')
+
+
+def enums_distinct(ctx, eng, classes=FSM_ENUMS):
+    """No two members of an enumeration the machines are keyed by share a
+    value: Enum makes the second an alias of the first, the rows of two
+    states or inputs collapse into one and every comparison with either
+    name holds for both."""
+    ctx.rule('TAB.enum: members of the state/input enumerations have '
+             'pairwise distinct (folded) values')
+    for q in classes:
+        c = eng.m.cls(q)
+        members = eng.m.enum_members(c.qual)
+        byval = {}
+        for k, v in members.items():
+            if k.startswith('_'):
+                continue
+            byval.setdefault(repr(v), []).append(k)
+        dup = sorted(ks for v, ks in byval.items() if len(ks) > 1 or
+                     v == 'None')
+        ctx.ob('TAB.enum', c.qual, 'members are distinct', not dup,
+               '%d members; aliases or unfolded values: %s' % (
+                   len(members), dup) if dup else
+               '%d members with distinct values' % len(members), node=c.node)
+    # ... and every row of the two tables is (state, input): (function or
+    # None, state) - a row of another shape is a cell that does not exist,
+    # or one whose use fails at the unpacking
+    for nm, tab in (('stream._transitions', eng.fsm.stream),
+                    ('connection.H2ConnectionStateMachine._transitions',
+                     eng.fsm.conn)):
+        ctx.ob('TAB.rows', nm, 'rows are well-formed', not tab.malformed,
+               '; '.join(tab.malformed)[:300] or '%d rows' % len(tab.cells),
+               node=tab.node)
+
+
+def attrs_initialised(ctx, eng):
+    """No AttributeError from state that was never set: an attribute that a
+    class reads through `self` and that only the class's own methods ever
+    assign (through `self`) is assigned in __init__ or at class level -
+    otherwise a read before the first of those assignments raises."""
+    import ast
+    m = eng.m
+    stores = {}
+    for q, fi in m.funcs.items():
+        for n in ast.walk(fi.node):
+            if isinstance(n, ast.Attribute) and isinstance(n.ctx, ast.Store):
+                own = isinstance(n.value, ast.Name) and n.value.id == 'self'
+                stores.setdefault(n.attr, set()).add(
+                    (fi.cls, own))
+    n_cls = 0
+    for cq, c in sorted(m.classes.items()):
+        meths = m.methods_of(cq)
+        init = meths.get('__init__')
+        if init is None or init.cls != cq:
+            continue
+        n_cls += 1
+        inited = {n.attr for n in ast.walk(init.node)
+                  if isinstance(n, ast.Attribute) and
+                  isinstance(n.ctx, ast.Store) and
+                  isinstance(n.value, ast.Name) and n.value.id == 'self'}
+        inited |= {t.id for st in c.node.body if isinstance(st, ast.Assign)
+                   for t in st.targets if isinstance(t, ast.Name)}
+        # ... or by what __init__ runs on self: a property setter it assigns
+        # through, a method of the class it calls
+        via = {n.func.attr for n in ast.walk(init.node)
+               if isinstance(n, ast.Call) and
+               isinstance(n.func, ast.Attribute) and
+               isinstance(n.func.value, ast.Name) and
+               n.func.value.id == 'self'} | set(inited)
+        for st in c.node.body:
+            if isinstance(st, (ast.FunctionDef, ast.AsyncFunctionDef)) and \
+                    st.name in via and st.name != '__init__':
+                inited |= {n.attr for n in ast.walk(st)
+                           if isinstance(n, ast.Attribute) and
+                           isinstance(n.ctx, ast.Store) and
+                           isinstance(n.value, ast.Name) and
+                           n.value.id == 'self'}
+        loads = set()
+        for fi in meths.values():
+            for n in ast.walk(fi.node):
+                if isinstance(n, ast.Attribute) and \
+                        isinstance(n.ctx, ast.Load) and \
+                        isinstance(n.value, ast.Name) and n.value.id == 'self':
+                    loads.add(n.attr)
+        missing = sorted(
+            a for a in loads if a in stores and a not in inited and
+            all(s == (cq, True) for s in stores[a]))
+        ctx.ob('ESC.attr-init', cq, 'state read through self is initialised',
+               not missing, 'read through self, assigned only by methods of '
+               'the class, but not in __init__: %s' % missing if missing else
+               '%d attributes assigned in __init__' % len(inited),
+               node=c.node)
+    ctx.record('classes_with_init', n_cls)
+    ctx.floor('classes_with_init', 8)
+
+
+class Every:
+    """Verdict over the paths (or sites) of one obligation: it holds when at
+    least one was judged and none failed.  `ok = Every()`, `ok(verdict)` per
+    path, `ok` as the obligation's truth value - so that a path added by a
+    change is judged like the others instead of the last one deciding."""
+    __slots__ = ('n', 'bad')
+
+    def __init__(self):
+        self.n = 0
+        self.bad = 0
+
+    def __call__(self, verdict):
+        self.n += 1
+        if not verdict:
+            self.bad += 1
+        return verdict
+
+    def __bool__(self):
+        return self.n > 0 and self.bad == 0
+
+
 def raise_paths(paths):
     return [p for p in paths if p.exit == 'raise']
 
